@@ -404,3 +404,43 @@ func VerifC14FUShape() {
 	}
 	verifCover("C14.shape.end")
 }
+
+// verifHEVCFixedUnit: symbolic header, fixed non-zero body (for differential harnesses
+// that do not depend on the body bytes)
+func verifHEVCFixedUnit(size int) verifHEVC {
+	u := verifHEVCUnit(2)
+	for i := 0; i < size-2; i++ {
+		u.body = append(u.body, uint8(0x11*(i%14+1)))
+	}
+	return u
+}
+
+// AddDONL and SkipAggregation are exported fields: a change between two calls
+// applies to the next call as if the payloader had been built that way
+func VerifC14OptionChange() {
+	mtu := uint16(verifCase("mtu", 8, 12))
+	a0, s0 := verifCase("donl.before", 0, 1) == 1, verifCase("skip.before", 0, 1) == 1
+	a1, s1 := verifCase("donl.after", 0, 1) == 1, verifCase("skip.after", 0, 1) == 1
+	pay := &H265Payloader{AddDONL: a0, SkipAggregation: s0, donl: verifU16("donl0")}
+	first := verifHEVCFixedUnit(verifPick("first.size", []int{3, 12}))
+	_ = pay.Payload(mtu, append([]byte{0, 0, 1}, first.raw()...))
+	pay.AddDONL, pay.SkipAggregation = a1, s1
+	twin := &H265Payloader{AddDONL: a1, SkipAggregation: s1, donl: pay.donl}
+	var stream []byte
+	for _, n := range [][]int{{12}, {3, 3}, {3, 12}}[verifCase("second", 0, 2)] {
+		stream = append(stream, 0, 0, 1)
+		stream = append(stream, verifHEVCFixedUnit(n).raw()...)
+	}
+	got := pay.Payload(mtu, append([]byte{}, stream...))
+	want := twin.Payload(mtu, append([]byte{}, stream...))
+	verifAssert("C14.opt.count", len(got) == len(want))
+	for i := range want {
+		if i < len(got) {
+			verifAssert("C14.opt.same-as-fresh", verifEqBytes(got[i], want[i]))
+		}
+	}
+	if a0 != a1 {
+		verifCover("C14.opt.donl-changed")
+	}
+	verifCover("C14.opt.end")
+}
